@@ -1115,6 +1115,8 @@ func (s *Sim) nonTrivial() bool {
 		return st["oracle.C16.a"]+st["oracle.C16.c"] > 0
 	case "C17":
 		return st["oracle.C17.a"]+st["oracle.C17.b"]+st["oracle.C17.d"] > 0
+	case "C18":
+		return st["oracle.C18.b"] > 0
 	case "C20":
 		return st["oracle.C20.b"] > 0 && st["oracle.C20.a"] > 0
 	case "C12":
